@@ -74,6 +74,9 @@ def make_scenarios(ctx):
         (("arg_probe", "var_names_clash"), 8 if q else 40),
         (("arg_probe", "weird_names"), 4 if q else 20),
         ((), 4 if q else 30),
+        # subscriptions (async clients, plain and OpenTelemetry alternating): the variables travel in the
+        # graphql-transport-ws `subscribe` payload through _send_subscribe instead of execute()
+        (("arg_probe", "subscriptions"), 8 if q else 40),
     ]
     out = []
     for si, (feats, n) in enumerate(streams):
@@ -88,6 +91,10 @@ def make_scenarios(ctx):
             sc.config["convert_to_snake_case"] = (i % 2 == 0)
             sc.config["async_client"] = (i // 2) % 2 == 0
             sc.config.pop("opentelemetry_client", None)
+            if "subscriptions" in feats:
+                sc.config["async_client"] = True
+                sc.config["opentelemetry_client"] = (i % 2 == 1)
+                sc.config["convert_to_snake_case"] = (i // 2) % 2 == 0
             cfg = scalar_config(r, want_ser=(False if "var_names_clash" in feats and i % 2 else None))
             sc.files = {"vscal.py": argenc.VSCAL}
             if cfg:
@@ -151,8 +158,6 @@ def plan_cases(g, rng, thorough):
     vg = ValGen(gs, rng, cfg, snake)
     out = []
     for op in g.operations():
-        if op.operation.value == "subscription":
-            continue
         vds = [(vd.variable.name.value, type_from_ast(gs, vd.type), vd.default_value is not None)
                for vd in op.variable_definitions or ()]
         cases = []
@@ -213,8 +218,11 @@ def run(ctx):
     cmds, slots = [], []
     stats = {"k1_methods": 0, "k2_cases": 0, "k3_calls": 0}
 
+    import time
+    t_ph = {"start": time.time()}
     with workers.Scratch() as sc:
         gens = scen.generate(scs, sc)
+        t_ph["generated"] = time.time()
         plans = []
         for g in gens:
             feats = "+".join(g.sc.features) or "default"
@@ -260,7 +268,9 @@ def run(ctx):
                             continue
                         slots.append(("coerce", g, op, variant))
                         cmds.append([Sym("coerce"), ssx, vsx, json_sx(variant)])
+        t_ph["planned"] = time.time()
         res = model.batch(ENGINE, cmds)
+        t_ph["model"] = time.time()
         genres, coerce_rows = {}, []
         for (kind, g, op, x), r in zip(slots, res):
             if model.is_error(r):
@@ -322,12 +332,16 @@ def run(ctx):
                 g.stop()
             return rows
 
+        t_ph["k2"] = time.time()
         driven = scen.parallel(plans, drive, jobs=12)
+        t_ph["driven"] = time.time()
 
     for (g, plan), rows in zip(plans, driven):
         check_scenario(ctx, g, plan, rows, genres, stats)
         for k, v in getattr(g, "valgen_stats", {}).items():
             run.dist("argument_values", k, v)
+    ks = list(t_ph)
+    run.extra["phase_seconds"] = {b: round(t_ph[b] - t_ph[a], 1) for a, b in zip(ks, ks[1:])}
     run.extra["totals"] = stats
     run.extra["k2_disagreements"] = k2_bad
 
@@ -395,8 +409,8 @@ def check_scenario(ctx, g, plan, rows, genres, stats):
                 diffs.append(("signature", real["params"], m_params))
             if real["dict"] != m_dict:
                 diffs.append(("variables dict", real["dict"], m_dict))
-            if real["locals"] != list(locs):
-                diffs.append(("locals", real["locals"], list(locs)))
+            if real["locals"] != list(locs)[:len(real["locals"])] or len(real["locals"]) < 2:
+                diffs.append(("locals", real["locals"], list(locs)))   # (subscription methods have no response/data locals)
             if real["first"] != "self" or real["kwarg"] != "kwargs":
                 diffs.append(("self/kwargs", [real["first"], real["kwarg"]], ["self", "kwargs"]))
             if real["async"] != bool(g.res["config"].get("async_client", True)):
@@ -454,9 +468,13 @@ def check_call(ctx, g, op, vds, c, names_ok, inputs_ok, f10_bad, stats, f21_ok=T
     stats["k3_calls"] += 1
     run.count()
     run.dist("call_modes", c.mode)
+    run.dist("transport", "ws-subscribe" if op.operation.value == "subscription" else "http")
     if vds:
         run.nontrivial_case(hash((g.sc.seed, op.name.value, jdump({n: (None if v is OMIT else v.enc) for n, v in c.vals.items()}))))
-    m_out, m_typed, m_int, m_constructible = c.model
+    m_http, m_ws, m_typed, m_int, m_constructible = c.model
+    m_out = m_ws if op.operation.value == "subscription" else m_http     # model entry point of the transport
+    if m_http != m_ws:
+        run.broken("model", f"call_subscribe differs from call_method: {m_ws} vs {m_http}")
     exc = r.get("exc")
     sent_vars = (r.get("request") or {}).get("variables")
     was_sent = (r.get("request") or {}).get("query") is not None
